@@ -5,6 +5,7 @@ import OxiddModel.Generated.ObMtbdd
 import OxiddModel.Generated.ObTdd
 import OxiddModel.Generated.ObTbl
 import OxiddModel.Generated.ObGc
+import OxiddModel.Generated.ObOrderings
 
 /-! All obligations over the tables extracted from `/repo` (the checks import only the modules of
 their concern). -/
